@@ -283,6 +283,26 @@ func c20Exposure(c *vk.Ctx) {
 			c.Violation("C20/client-endpoint-in-metrics", map[string]any{"leaks": leaks[:min(len(leaks), 5)]})
 			return
 		}
+		// every location label of every family is one the clients' classes allow: only the empty
+		// label when lookup is disabled, else the labels of the clients that were driven
+		allowed := map[string]bool{}
+		for _, ep := range clients {
+			loc, _ := expectedLocation(ep.IP, dbOn)
+			allowed[loc] = true
+		}
+		for _, mf := range mfs {
+			for _, mm := range mf.GetMetric() {
+				for _, l := range mm.GetLabel() {
+					if l.GetName() == "location" && !allowed[l.GetValue()] {
+						c.Violation("C20/location-label-not-decided-by-class", map[string]any{"family": mf.GetName(), "label": l.GetValue(), "lookup_enabled": dbOn, "labels_the_clients_classes_allow": vk.SortedKeys(allowed), "client_classes": classes})
+						return
+					}
+				}
+			}
+			if mf.GetName() == "shadowsocks_tunnel_time_seconds_per_location" {
+				c.Count(fmt.Sprintf("tunnel_time_location_families_checked_lookup=%v", dbOn), 1)
+			}
+		}
 		for n := range names {
 			if !knownLabels[n] {
 				c.Note("label name outside the known set (information only): %s", n)
@@ -378,6 +398,7 @@ func init() {
 			c.Require("lookup_nonglobal")
 			c.Require("lookup_db_consulted")
 			c.Require("exposure_rounds")
+			c.Require("tunnel_time_location_families_checked_lookup=false")
 			c20Lookup(c)
 			c20Exposure(c)
 			c.Require("per_client_label_checks")
